@@ -176,6 +176,12 @@ ObsCheck(o) ==
 
 ObsUpd(o) == UNCHANGED avars
 
+\* Reset(comb, n): the trace goes on with a new, independent combinator call (thorough tier
+\* packs several cases into one process); the machine starts afresh.
+ResetCheck(comb, n) == IF comb \notin Combs THEN "harness.comb" ELSE "ok"
+ResetUpd(comb, n) ==
+  /\ acomb' = comb /\ an' = n /\ adone' = <<>> /\ acall' = -1 /\ aruns' = <<>>
+
 SetEv(i, k, v) == SetCheck(i, k, v) = "ok" /\ SetUpd(i, k, v)
 New == NewCheck = "ok" /\ NewUpd
 Run(r) == RunCheck(r) = "ok" /\ RunUpd(r)
